@@ -325,7 +325,6 @@ struct Runner {
     }
     // a fresh handler given the declared atoms (declaration order = pool order) and only the current stack
     void doFresh() {
-        if (conflict) { out << "skip F\n"; return; }
         auto fh = env.makeHandler();
         for (auto & p : pool) if (p.declared) fh->declareAtom(p.atom);
         bool ok = true;
@@ -505,6 +504,7 @@ int main() {
                     else if (c == 'C') r.doCheck(o.substr(1) == "1");
                     else if (c == 'F') r.doFresh();
                     else std::cout << "bad op " << o << "\n";
+                    std::cout.flush();
                 }
             } else if (w[0] == "end") {
                 std::cout << "end\n";
